@@ -31,6 +31,9 @@ def run(ctx):
         t, m = curves.random_histories(ctx, rng, nrand if case is None else nrand // 4, 8, alphabet, read_case=case)
         traces += t
         meta += m
+    t, m = curves.random_histories(ctx, rng, 150 if not thorough else 2000, 30, ["A", "A", "B", ""], read_case=None)
+    traces += t
+    meta += m
     fails, _ = ctx.validate("Trace_Curves", {"traces": traces})
     for tid, l, clause in fails:
         ev = traces[tid][l]
